@@ -512,6 +512,19 @@ func (fr *Frame) callStatic(fn *ssa.Function, bind []Val, args []Val, c *ssa.Cal
 	if fn.Origin() != nil {
 		key = fn.Origin().String()
 	}
+	if fr.top && vc.fc != nil && len(vc.fc.AtCalls) > 0 {
+		// caller-side obligations anchored to this callee (atcall clauses of the function being verified)
+		for _, ac := range vc.fc.AtCalls {
+			if ac.Pat.MatchString(key) {
+				g := vc.evalClause(fr, ac.Clause, st, vc.entry, nil)
+				vc.oblige(st, "requires", fr.name("atcall."+ac.Clause.Name+"@"+shortPos(pos)), pos, "at every call of "+ac.Pat.String()+": "+ac.Clause.Src, g, ac.Clause.Props)
+				if vc.atCallSeen == nil {
+					vc.atCallSeen = map[string]int{}
+				}
+				vc.atCallSeen[ac.Clause.Name]++
+			}
+		}
+	}
 	fc := e.contracts.Funcs[key]
 	if fc != nil && fc.Flags["iterates"] != "" && c != nil {
 		fc.Used = true
